@@ -112,7 +112,7 @@ def goal_replay(goal, assumptions=(), encs=None, tol=1e-6, npoints=12, label="")
         if model:
             points.append(("the solver's model", p0))
         points.append(("a fixed generic point", base))
-        for j in range(npoints):
+        for j in range(npoints if model else min(npoints, 3)):  # probe mode (no model): the generic point and three more
             points.append((f"pseudo-random point {j}", {nm: ranges.get(nm, (-1.0, 1.0))[0] + (ranges.get(nm, (-1.0, 1.0))[1] - ranges.get(nm, (-1.0, 1.0))[0]) * rng.random() for nm in sorted(allvars)}))
         tried = []
         for what, vals in points:
@@ -132,13 +132,14 @@ def goal_replay(goal, assumptions=(), encs=None, tol=1e-6, npoints=12, label="")
                     continue
                 for e in cand:
                     real, _ = e.real_outputs({k: v for k, v in vals.items() if k in e.vars or k in e.uf_syms})
+                    ne_e = NumEval({k: v for k, v in vals.items()}, ack=e.interp.ackdefs)
                     for r, o in zip(real, e.outs):
                         idxs = list(np.ndindex(o.shape))
                         if len(idxs) > 60:
                             idxs = rng.sample(idxs, 60)
                         scale = 1.0 + float(np.max(np.abs(np.where(np.isfinite(r), r, 0)))) if r.size else 1.0
                         for i in idxs:
-                            cv, rv = ne.scalar(o[i]), (r[i].item() if hasattr(r[i], "item") else r[i])
+                            cv, rv = ne_e.scalar(o[i]), (r[i].item() if hasattr(r[i], "item") else r[i])
                             if isinstance(cv, bool) or isinstance(rv, bool):
                                 agree = bool(cv) == bool(rv)
                             elif not (np.isfinite(complex(cv)) and np.isfinite(complex(rv))):
@@ -146,7 +147,7 @@ def goal_replay(goal, assumptions=(), encs=None, tol=1e-6, npoints=12, label="")
                             else:
                                 agree = abs(complex(cv) - complex(rv)) <= 1e-7 * scale
                             if not agree:
-                                return {"reproduced": False, "detail": f"encoding and real code disagree at {what} (output component {i}: {cv} vs {rv})"}
+                                return {"reproduced": False, "detail": f"encoding #{REGISTRY.index(e) if e in REGISTRY else '?'} ({len(e.interp.uf_calls)} opaque calls, inputs {[i_.name for i_ in e.ins]}) and real code disagree at {what} (output component {i}: {cv} vs {rv})"}
                 why = []
                 if not ne.holds(goal, tol, explain=why):
                     return {"reproduced": True, "detail": f"{label + ': ' if label else ''}at {what} the real code was run and agrees with its encoding; the stated relation fails there: {'; '.join(why) or 'disjunction false'}",
